@@ -140,13 +140,13 @@ func (st *state) modelKey() string {
 	return strings.Join(p, "|")
 }
 
-func (st *state) fp() string {
-	var p []string
+func (st *state) fp() *statefp.Snap {
+	var p []*statefp.Snap
 	for s := 0; s < 2; s++ {
 		if st.impl[s] == nil {
-			p = append(p, "-")
+			p = append(p, nil)
 		} else {
-			p = append(p, statefp.Of(st.impl[s].impl()))
+			p = append(p, statefp.Snapshot(st.impl[s].impl()))
 		}
 	}
 
@@ -154,7 +154,7 @@ func (st *state) fp() string {
 	// clone and its origin; the per-object fingerprints contain slice base
 	// numbers that are local to each walk, so sharing is exposed through the
 	// behavioural observation instead.
-	return strings.Join(p, "||")
+	return statefp.Join(p...)
 }
 
 // run executes ops and returns a failure description, or "".  Query
@@ -390,6 +390,7 @@ func main() {
 
 		// (ii) BFS with replay over (model state, implementation fingerprint).
 		bfs := int64(0)
+		keyer := statefp.NewKeyer()
 		for _, typ := range []string{"sorted", "map"} {
 			for _, init := range inits[:2] {
 				bfs++
@@ -403,37 +404,69 @@ func main() {
 					continue
 				}
 
-				seen := map[string]bool{st0.modelKey() + "#" + st0.fp(): true}
-				frontier := [][]op{nil}
-				states, transitions := int64(1), int64(0)
-				maxStates := int64(runlib.Pick(c, 40_000, 400_000))
-				for len(frontier) > 0 && states < maxStates {
-					hist := frontier[0]
-					frontier = frontier[1:]
-					hasClone := false
-					for _, o := range hist {
-						hasClone = hasClone || o.Kind == "clone"
-					}
+				var states, transitions int64
+				stopped := ""
+				keyer.Reset()
+			search:
+				for {
+					k0, _ := keyer.Key(st0.modelKey(), st0.fp())
+					seen := map[string]bool{k0: true}
+					frontier := [][]op{nil}
+					states, transitions = 1, 0
+					maxStates := int64(runlib.Pick(c, 40_000, 400_000))
+					for len(frontier) > 0 {
+						if states >= maxStates {
+							stopped = fmt.Sprintf("BFS state cap reached for %s sets from New(%v)", typ, init)
 
-					for _, o := range alphabet(hasClone) {
-						next := append(append(make([]op, 0, len(hist)+1), hist...), o)
-						transitions++
-						st, ok := check(c, witness{Type: typ, Init: init, Ops: next}, "bfs")
-						if !ok {
-							continue
+							break search
 						}
 
-						k := st.modelKey() + "#" + st.fp()
-						if !seen[k] {
-							seen[k] = true
-							states++
-							frontier = append(frontier, next)
+						if c.OutOfBudget() {
+							stopped = fmt.Sprintf("time budget used up during the BFS for %s sets from New(%v)", typ, init)
+
+							break search
+						}
+
+						hist := frontier[0]
+						frontier = frontier[1:]
+						hasClone := false
+						for _, o := range hist {
+							hasClone = hasClone || o.Kind == "clone"
+						}
+
+						for _, o := range alphabet(hasClone) {
+							next := append(append(make([]op, 0, len(hist)+1), hist...), o)
+							transitions++
+							st, ok := check(c, witness{Type: typ, Init: init, Ops: next}, "bfs")
+							if !ok {
+								continue
+							}
+
+							k, restart := keyer.Key(st.modelKey(), st.fp())
+							if restart {
+								keyer.Reset()
+								c.Count("bfs_restarts_after_unbounded_field", 1)
+
+								continue search
+							}
+
+							if !seen[k] {
+								seen[k] = true
+								states++
+								frontier = append(frontier, next)
+							}
 						}
 					}
+
+					break
 				}
 
-				if len(frontier) > 0 {
-					c.NotExhaustive(fmt.Sprintf("BFS state cap reached for %s sets from New(%v)", typ, init))
+				if stopped != "" {
+					c.NotExhaustive(stopped)
+				}
+
+				if d := keyer.Describe(); d != "" {
+					c.Note("%s", d)
 				}
 
 				c.Count("states", states)
